@@ -306,6 +306,28 @@ def Run.step (r : Run S) : Op → Run S × Out
     | some m' => ({ r with m := m' }, .grew true)
     | none => (r, .grew false)
 
+/-! ## the host-function layer (lib/runtime/wazero/imports.go) -/
+
+/-- what the guest sees of a host call: a value, nothing, or a trap (the Go function panics with
+    the allocator's error, wazero turns the panic into a trap) -/
+inductive HostOut
+  | val (p : Nat) | unit | panic (e : Err)
+deriving DecidableEq, Repr
+
+/-- `ext_allocator_malloc_version_1`: `Allocate` on the module's memory; an error is a panic -/
+def hostMalloc (r : Run S) (size : Nat) : Run S × HostOut :=
+  match r.step (.alloc size) with
+  | (r', .ptr p) => (r', .val p)
+  | (r', .err e) => (r', .panic e)
+  | (r', _) => (r', .panic .panic)
+
+/-- `ext_allocator_free_version_1`: `Deallocate`; an error is a panic -/
+def hostFree (r : Run S) (ptr : Nat) : Run S × HostOut :=
+  match r.step (.free ptr) with
+  | (r', .ok) => (r', .unit)
+  | (r', .err e) => (r', .panic e)
+  | (r', _) => (r', .panic .panic)
+
 def Run.init (S : Store) (heapBase pages maxPages : Nat) : Run S :=
   { s := newAlloc heapBase, m := { pages := pages, maxPages := maxPages, bytes := S.empty },
     live := [], freed := [] }
